@@ -344,6 +344,10 @@ def check(prog, rep, tier):
         trues = [n for n in ast.walk(f.node) if isinstance(n, ast.Dict) and
                  any(isinstance(k, ast.Constant) and k.value == 'status' and isinstance(val, ast.Constant)
                      and val.value is True for k, val in zip(n.keys, n.values))]
+        # ... or built by a trivial module-level helper (`return _success()`)
+        hr = common.helper_returns(u)
+        trues += [n for n in ast.walk(f.node) if isinstance(n, ast.Call) and isinstance(n.func, ast.Name)
+                  and n.func.id in hr and "'status': True" in hr[n.func.id].replace('"', "'")]
         for t in trues:
             guards = [i for i in ast.walk(f.node) if isinstance(i, ast.If) and
                       any(t is x for b in i.body for x in ast.walk(b))]
